@@ -684,6 +684,16 @@ class Ref:
             if aux.done:
                 self.deactivate(aux)
                 R.actives = list(R.active.outline)
+                # another conditional auxiliary of main or of a frame below it may still be running:
+                # the frames below ITS main frame stay suspended
+                start = len(main.head) - 1
+                for Fr in R.active.outline[start:]:
+                    for a in Fr.preacts:
+                        if a[0] == "auxif" and self.framers[a[1]] is not aux:
+                            other = self.framers[a[1]]
+                            if not other.done and other.main is Fr:
+                                R.actives = list(Fr.head)
+                                return None
                 return None
             return aux
 
